@@ -415,6 +415,8 @@ class Woven:
         self.units = []          # dict(unit, mode, file, item, sha256, src_line, line_start, line_end, rules, ...)
         self.items = []
         self.assumed_units = []
+        self.uncontracted = []   # methods of impl blocks declared complete that have no contract
+        self.complete_checks = []
 
     def emit(self, text, src=None, origin=None):
         """text may be multi-line. origin: list of src line numbers per line (or None)."""
@@ -539,6 +541,11 @@ class Weaver:
         self.drop_aids = drop_aids or {}
         w = Woven(group)
         self._template(os.path.join(self.verif, 'groups', group + '.rs'), w)
+        for file, segs, fns in w.complete_checks:
+            have = set(u['fn'] for u in w.units if u['file'] == file and [x.strip() for x in u['item'].split(' :: ')][:-1] == [x.strip() for x in segs])
+            for n2, ln in fns:
+                if n2 not in have:
+                    w.uncontracted.append('%s:%d: fn %s of `%s` has no contract' % (file, ln, n2, ' :: '.join(segs)))
         return w
 
     def _template(self, path, w):
@@ -557,14 +564,45 @@ class Weaver:
                 self._consts(s[len('//@consts '):].strip(), w)
             elif s.startswith('//@verify-macro '):
                 self._macro_units(s[len('//@verify-macro '):].strip(), w)
+            elif s.startswith('//@verify-if-present '):
+                # a contract for a function the code need not have (e.g. a serde method with a provided default): woven only
+                # when the function exists, so that ADDING it with a wrong body fails its contract instead of escaping it
+                u_ = s[len('//@verify-if-present '):].strip()
+                sp_ = parse_vspec(os.path.join(self.verif, 'contracts', u_ + '.vspec'))
+                f_, sg_ = parse_source_path(sp_['source'])
+                try:
+                    self.src(f_).find(sg_)
+                except SliceError:
+                    w.items.append(dict(item='optional unit %s: function absent from the source, contract not woven' % u_, file=f_, src_line=0, sha256='', rules=[], line_start=w.lineno, line_end=w.lineno))
+                    continue
+                self._unit(u_, 'verify', w)
+            elif s.startswith('//@complete '):
+                # every fn of this impl block must be a unit of the group; a method without contract is reported (undecided)
+                self._complete(s[len('//@complete '):].strip(), w)
             elif s.startswith('//@verify '):
-                self._unit(s[len('//@verify '):].strip(), 'verify', w)
+                try:
+                    self._unit(s[len('//@verify '):].strip(), 'verify', w)
+                except SliceError as e:
+                    if 'matches 0 items' not in str(e):
+                        raise
+                    # the function under contract is gone (renamed / removed / inlined): that unit is undecided, the others are still verified
+                    w.uncontracted.append('unit %s: %s' % (s[len('//@verify '):].strip(), e))
             elif s.startswith('//@assume '):
                 self._unit(s[len('//@assume '):].strip(), 'assume', w)
             elif s.startswith('//@'):
                 raise SliceError('%s: unknown directive %s' % (path, s))
             else:
                 w.emit(raw)
+
+    def _complete(self, spec, w):
+        file, segs = parse_source_path(spec)
+        S = self.src(file)
+        try:
+            imp = S.find(segs)
+        except SliceError as e:
+            w.uncontracted.append('%s: impl block not found (%s)' % (spec, e))
+            return
+        w.complete_checks.append((file, segs, [(n2, S.line_of(s2)) for k2, h2, n2, s2, b2, e2 in S._items(imp['body_open'] + 1, imp['end'] - 1) if k2 == 'fn']))
 
     def _macro_units(self, unit, w):
         """contract template contracts/<unit>.vspec with `macro <name> in <def file> invoked in <file>`; one woven unit per
